@@ -2,6 +2,7 @@ import Proofs.C13
 import Proofs.TieLJ
 import Proofs.TieLJShape
 import Proofs.SrcC13
+import Proofs.TieOps
 #print axioms PV.Proofs.C13.powi2
 #print axioms PV.Proofs.C13.powi3
 #print axioms PV.Proofs.C13.powi6
@@ -36,3 +37,13 @@ import Proofs.SrcC13
 #print axioms PV.Proofs.Source.C13_source_cut_inside
 #print axioms PV.Proofs.Source.C13_source_cut_outside
 #print axioms PV.Proofs.Source.C13_source_molecule
+#print axioms PV.Proofs.Tie.declared_translated_ops
+#print axioms PV.Proofs.Tie.atom2_mul_right_tie
+#print axioms PV.Proofs.Tie.atom2_mul_left_tie
+#print axioms PV.Proofs.Tie.line2_mul_right_tie
+#print axioms PV.Proofs.Tie.line2_mul_left_tie
+#print axioms PV.Proofs.Tie.lj2_mul_right_tie
+#print axioms PV.Proofs.Tie.lj2_mul_left_tie
+#print axioms PV.Proofs.Tie.lineshape_transform_tie
+#print axioms PV.Proofs.Tie.molshape_transform_tie
+#print axioms PV.Proofs.Tie.ljshape_transform_tie
